@@ -26,6 +26,7 @@ package internal
 
 //@ func (*compiler).compileSlice
 //@   option props=[C13]
+//@   ensures [C10,C13] serial-numbers-are-handed-out-once: implies(result != nil, result.Serial == old(c.taskSerial) && c.taskSerial == old(c.taskSerial) + 1) && implies(result == nil, c.taskSerial == old(c.taskSerial))
 //@   ensures [C14] a-rejected-directive-part-is-reported: $REPORTED
 //@   ghost elemT ref = 0
 //@   ghost asked bool = false
@@ -40,10 +41,12 @@ package internal
 //@   ensures [C14] accepted-only-if-element-assignable: implies(result != nil, asked && assignable)
 //@   ensures [C14] assignable-element-is-accepted: implies(asked && assignable, result != nil)
 //@   ensures [C14] accepted-records-element-type: implies(result != nil, result.ElemType == elemT && result.Function == fn)
+//@   ensures [C10,C14] an-index-parameter-is-an-int: implies(result != nil && len(result.Function.Inputs) == 2, typeof(result.Function.Inputs[0]) == typeid("*go/types.Basic") && pure("(*go/types.Basic).Kind", dataof(result.Function.Inputs[0])) == types.Int)
 //@   ensures [C10,C14] accepted-slice-function-takes-an-optional-index-and-the-element-and-returns-at-most-an-error: implies(result != nil, result.Function != nil && len(result.Function.Outputs) == 0 && (len(result.Function.Inputs) == 1 || len(result.Function.Inputs) == 2) && result.HasIndexParameter == (len(result.Function.Inputs) == 2) && result.Slice == ce.Args[1])
 
 //@ func (*compiler).compileMap
 //@   option props=[C13]
+//@   ensures [C10,C13] serial-numbers-are-handed-out-once: implies(result != nil, result.Serial == old(c.taskSerial) && c.taskSerial == old(c.taskSerial) + 1) && implies(result == nil, c.taskSerial == old(c.taskSerial))
 //@   ensures [C14] a-rejected-directive-part-is-reported: $REPORTED
 //@   loop 1 invariant no-diagnostic-removed: $MONO
 //@   ghost keyT ref = 0
@@ -216,6 +219,7 @@ package internal
 
 //@ func (*compiler).compileParallelTaskFn
 //@   option props=[C13]
+//@   ensures [C10,C13] serial-numbers-are-handed-out-once: implies(result != nil, result.Serial == old(c.taskSerial) && c.taskSerial == old(c.taskSerial) + 1) && implies(result == nil, c.taskSerial == old(c.taskSerial))
 //@   ensures [C14] a-rejected-directive-part-is-reported: $REPORTED
 //@   ensures [C10,C14] parallel-task-takes-at-most-a-context-and-returns-at-most-an-error: implies(result != nil, result.Function != nil && $TLEN($PARAMS(result.Function.Sig)) == ite(result.Function.WantCtx, 1, 0) && $TLEN(pure("(*go/types.Signature).Results", result.Function.Sig)) == ite(result.Function.HasError, 1, 0))
 //@   requires $C && p != nil
@@ -242,9 +246,22 @@ package internal
 //@   option props=[C13]
 //@   requires $C && flow != nil && t != nil && t.Function != nil && t.Function.Sig != nil
 //@   requires no-predicate-yet: t.Predicate == nil
-//@   loop 1 invariant [C01,C11] predicate-function-is-a-new-object: $PREDFRESH && $MONO
-//@   loop 2 invariant index-non-negative: 0 <= i && $MONO
-//@   loop 3 invariant no-diagnostic-removed: $MONO
+//@   requires no-fallback-yet: !t.FallbackWith
+//   FallbackWith: accepted only with one value per output of a task that returns
+//   an error; a value that is not assignable to its output is reported
+//@   ghost na bool = false
+//@   ghost sawErr bool = false
+//@   at call Results 1 ghost sawErr = false
+//@   at call isError 1 ghost sawErr = sawErr || ret
+//@   at call AssignableTo 1 pre assert [C11,C14] each-fallback-value-is-checked-against-the-output-at-its-position: arg1 == t.Outputs[idx3] && 0 <= idx3 && idx3 < len(t.Outputs)
+//@   at call AssignableTo 1 ghost na = !ret
+//@   at call errf 4 ghost na = false
+//@   at store FallbackWith 1 assert [C11,C14] fallback-recorded-only-for-a-task-that-returns-an-error: sawErr
+//@   at store FallbackWithResults 1 assert [C11,C14] recorded-fallback-values-are-the-options-arguments-one-per-output: len(val) == len(t.Outputs)
+//@   ensures [C11,C14] recorded-fallback-has-one-value-per-output: implies(t.FallbackWith, len(t.FallbackWithResults) == len(t.Outputs))
+//@   loop 1 invariant [C01,C11] predicate-function-is-a-new-object: $PREDFRESH && $MONO && !na && implies(t.FallbackWith, len(t.FallbackWithResults) == len(t.Outputs))
+//@   loop 2 invariant [C11,C14] error-result-seen-so-far: 0 <= i && $MONO && hasError == sawErr
+//@   loop 3 invariant [C11,C14] an-unassignable-fallback-value-was-reported: $MONO && !na && 0 <= idx3 && len(errResults) == len(t.Outputs)
 //@   ensures [C14] no-diagnostic-removed: $MONO
 //@   ensures [C01,C11] predicate-function-is-a-new-object: $PREDFRESH
 //@   at call compilePredicate 1 pre assume typeChecked-predicate-arity: len(arg3.Args) == 1
@@ -406,7 +423,7 @@ package internal
 // the diagnostic; the loop invariant !dup is checked on every back edge), and a
 // flow with any diagnostic is rejected. C13: no-panic sweep of compileFlow.
 
-//@ macro FUNCSOK = implies(dropped, len(c.errors) >= 1) && forall(i, int, implies(0 <= i && i < len(flow.Tasks), flow.Tasks[i] != nil)) && forall(i, int, implies(0 <= i && i < len(flow.Funcs), flow.Funcs[i] != nil && flow.Funcs[i].Node != nil)) && forall(i, int, implies(0 <= i && i < len(flow.Inputs), flow.Inputs[i] != nil)) && forall(i, int, implies(0 <= i && i < len(flow.Outputs), flow.Outputs[i] != nil)) && forall(i, int, implies(0 <= i && i < len(flow.invokeTypes), flow.invokeTypes[i] != nil))
+//@ macro FUNCSOK = len(flow.Tasks) == nT && len(flow.Predicates) == nP && len(flow.Funcs) == nT + nP && implies(dropped, len(c.errors) >= 1) && forall(i, int, implies(0 <= i && i < len(flow.Tasks), flow.Tasks[i] != nil)) && forall(i, int, implies(0 <= i && i < len(flow.Funcs), flow.Funcs[i] != nil && flow.Funcs[i].Node != nil)) && forall(i, int, implies(0 <= i && i < len(flow.Inputs), flow.Inputs[i] != nil)) && forall(i, int, implies(0 <= i && i < len(flow.Outputs), flow.Outputs[i] != nil)) && forall(i, int, implies(0 <= i && i < len(flow.invokeTypes), flow.invokeTypes[i] != nil))
 
 //@ macro DISTINCT = forall(i, int, forall(i2, int, implies(0 <= i && i < len(flow.Funcs) && 0 <= i2 && i2 < len(flow.Funcs) && i != i2, flow.Funcs[i] != flow.Funcs[i2])))
 //@ macro PROVEMPTY = forall(t, int, tmapAt(flow.providers, t) == nil) && flow.providers != nil && flow.receivers != nil && flow.providers != flow.receivers
@@ -431,6 +448,11 @@ package internal
 //@   at call compileTask 1 ghost dropped = dropped || ret == nil
 //@   ghost cyc bool = false
 //@   at call validateFlowCycles 1 ghost cyc = ret != nil
+//@   ghost nT int = 0
+//@   ghost nP int = 0
+//@   at call compileTask 1 ghost nT = nT + ite(ret != nil, 1, 0)
+//@   at call compileTask 1 ghost nP = nP + ite(ret != nil && ret.Predicate != nil, 1, 0)
+//@   ensures@return4 [C02,C10,C11] every-compiled-task-is-recorded-once-with-its-function-and-its-predicate: len(result.Tasks) == nT && len(result.Predicates) == nP && len(result.Funcs) == nT + nP
 //@   ensures@return4 [C14] a-flow-with-a-dependency-cycle-is-rejected: !cyc
 //@   ensures@return4 [C14] no-task-was-dropped-silently: !dropped
 //@   ghost dup bool = false
